@@ -12,8 +12,8 @@ from . import asmdiff as A
 WORK = f"{C.CACHE}/cli_work"
 
 PROGRAMS = {
-    "ok": "@include \"lib.inc\"\nstart: nop\n@meta \"ID\" \"RAM\"\nvar:\n@endmeta\n@db 1, 2, LIBV\n@dw start\n",
-    "parse-fail": "nop\n@bogus 1\n",
+    "ok": "@include \"lib.inc\"\nstart: nop\n@echo \"building\"\n@echo 30 + 7\n@echo LIBV\n@meta \"ID\" \"RAM\"\nvar:\n@endmeta\n@db 1, 2, LIBV\n@dw start\n",
+    "parse-fail": "nop\n@echo 41 + 1\n@echo \"about to fail\"\n@bogus 1\n",
     "link-fail": "@dw nowhere\nnop\n",
     "range-link-fail": "@db later\n@defl later, 300\n",
     "export-fail": "lab: nop\n@defl foo, @sizeof lab\n",          # unsolvable, never referenced: only an exporter notices
@@ -48,7 +48,7 @@ def run(tier, seed):
     # an -o file that cannot be created.  Export flags: none; -g; -g plus the CPU's own exporter;
     # the same with one of the export files impossible to create (its directory does not exist).
     for arch, prog, placement, omode, dbg, sp in itertools.product(
-            archs, PROGRAMS, ("before", "after", "mixed"), ("stdout", "new", "stale", "nodir"),
+            archs, PROGRAMS, ("before", "after", "mixed"), ("stdout", "new", "stale", "nodir", "devfull"),
             ("none", "json", "arch", "json-nodir", "arch-nodir", "arch-json-nodir"), ("good", "bad", "none")):
         if tier == "quick" and rng.random() < 0.75 and not (prog == "ok" and placement == "after" and sp == "good"):
             continue
@@ -79,7 +79,7 @@ def run(tier, seed):
             opts += ["-I", "../libs", "-I", "../no-such-dir"]
             msp = ["../libs", "../no-such-dir"]
         if to_file:
-            opts += ["-o", "nodir/out.bin" if omode == "nodir" else "out.bin"]
+            opts += ["-o", "nodir/out.bin" if omode == "nodir" else "/dev/full" if omode == "devfull" else "out.bin"]
         if omode == "stale":
             open(f"{root}/elsewhere/out.bin", "wb").write(b"\x55" * 64)
         exports = []
@@ -114,7 +114,7 @@ def run(tier, seed):
             written[fn] = open(os.path.join(cwd, fn), "rb").read()
         results.append((p.returncode, p.stdout, p.stderr, written, argv))
         fspec = ";".join(f"{pth}={d.hex()}" for pth, d in files.items()) + ";/elsewhere/;/libs/;/proj/src/"
-        model_lines.append(f"c{i}\tcli\t{arch}\t/elsewhere\t../proj/src/main.asm\t{';'.join(msp) if msp else '-'}\t{fspec}\t{'x' if omode == 'nodir' else 1 if to_file else 0}\t{','.join(exports) if exports else '-'}")
+        model_lines.append(f"c{i}\tcli\t{arch}\t/elsewhere\t../proj/src/main.asm\t{';'.join(msp) if msp else '-'}\t{fspec}\t{'x' if omode == 'nodir' else 'w' if omode == 'devfull' else 1 if to_file else 0}\t{','.join(exports) if exports else '-'}")
     model = C.run_model(model_lines)
     hist = {}
     for i, (arch, prog, placement, omode, dbg, sp) in enumerate(cases):
@@ -129,12 +129,14 @@ def run(tier, seed):
         of = written.get("out.bin")
         of_s = "-" if of is None else ("empty" if of == b"" else of.hex())
         n_exports = sum(1 for fn in written if fn != "out.bin")
-        got = [str(0 if rc == 0 else 1), so.hex(), of_s, "1" if se else "0"]
+        got = [str(0 if rc == 0 else 1), so.hex(), of_s, "1" if b"[ERROR]" in se else "0"]     # (@echo output also goes to standard error)
+        if omode == "devfull":
+            got[2] = m_of = "n/a"        # the device cannot be read back
         if got != [m_exit, m_out, m_of, m_msg]:
             chk.disagreements.append({"argv": argv, "program": prog, "impl": got + [sorted(written)], "model": m[:5]})
         # ---- the property itself, on the real binary
-        should_ok = sp != "bad" and omode != "nodir" and (prog == "ok" or (prog == "export-fail" and dbg == "none")) and "nodir" not in dbg
-        image_ok = sp != "bad" and omode != "nodir" and prog in ("ok", "export-fail")     # assembling and linking succeed
+        should_ok = sp != "bad" and omode not in ("nodir", "devfull") and (prog == "ok" or (prog == "export-fail" and dbg == "none")) and "nodir" not in dbg
+        image_ok = sp != "bad" and omode not in ("nodir", "devfull") and prog in ("ok", "export-fail")     # assembling and linking succeed, the image can be written
         bad = None
         if rc not in (0, 1):
             bad = f"exit status {rc} (crash or usage error); stderr: {se.decode('utf-8', 'replace')[-160:]}"
@@ -168,7 +170,7 @@ def run(tier, seed):
     chk.oblige("correspondence: the real binary (exit status, stdout, -o file, message) = Cli.main over the Model's phases on every combination",
                not chk.disagreements, json.dumps(chk.disagreements[:2])[:900])
     chk.coverage.update({"exhaustive": tier == "thorough", "program_kinds": hist,
-                         "exhaustive_note": "3 sub-commands x 6 program kinds (succeeding; failing while parsing, linking (undefined / deferred range), exporting; missing include) x option placement (before / after / split around the sub-command) x {stdout, new -o file, -o file with longer stale contents, -o file that cannot be created} x {no export, -g, -g plus --gNL/--gSYM, each with one export file impossible to create} x {good, bad, no search path}: all combinations in thorough, a seeded quarter in quick (the succeeding program with options after the sub-command always)"})
+                         "exhaustive_note": "3 sub-commands x 6 program kinds (succeeding; failing while parsing, linking (undefined / deferred range), exporting; missing include) x option placement (before / after / split around the sub-command) x {stdout, new -o file, -o file with longer stale contents, -o file that cannot be created, -o file that cannot be written (/dev/full)} x {no export, -g, -g plus --gNL/--gSYM, each with one export file impossible to create} x {good, bad, no search path}: all combinations in thorough, a seeded quarter in quick (the succeeding program with options after the sub-command always)"})
     chk.assumptions = ["clap's parsing of the declared option grammar, process exit codes and file creation are OS / library behaviour: modelled (Cli.main) and observed here, not verified",
                        "with -o FILE the file is created (truncated) before assembling, so a failed run leaves an empty FILE: no bytes are written to it, which is what the statement asks"]
     return chk.finish(
